@@ -66,7 +66,8 @@ def gen_plan(rng, index, tier):
     dss = []
     for k in kinds:
         cfg = dw.gen_ds_cfg(rng, scene, k)
-        dss.append({"kind": k, "cfg": cfg, "npz": forced_npz if forced_npz is not None else rng.random() < 0.4})
+        npz = forced_npz if forced_npz is not None else rng.random() < 0.4
+        dss.append({"kind": k, "cfg": cfg, "npz": npz, "stale_dir": npz and rng.random() < 0.35})
     n_ops = rng.randint(5, 40 if tier == "thorough" else 24)
     ops = []
     for _ in range(n_ops):
@@ -137,9 +138,14 @@ def shrink(plan):
                 if any(not x["pred"] for x in p["scene"]["frames"][i]["instances"]):
                     yield p
     for d, ds in enumerate(plan["datasets"]):
+        if ds.get("stale_dir"):
+            p = copy.deepcopy(plan)
+            p["datasets"][d]["stale_dir"] = False
+            yield p
         if ds["npz"]:
             p = copy.deepcopy(plan)
             p["datasets"][d]["npz"] = False
+            p["datasets"][d]["stale_dir"] = False
             p["ops"] = [o for o in p["ops"] if not (o["op"] == "reopen" and o["ds"] == d)]
             yield p
         for k, v in (("scale", 1.0), ("max_stride", 1), ("output_stride", 1)):
@@ -172,6 +178,23 @@ def _nan_nodes(pts):
     return [p[0] != p[0] or p[1] != p[1] for p in pts]
 
 
+def stale_scene(scene):
+    """The same project as it looked before the user edited it: keypoints elsewhere, other nodes missing (same number of
+    samples, so every stale file has a namesake that must be overwritten)."""
+    sc = copy.deepcopy(scene)
+    for f in sc["frames"]:
+        H, W = sc["sizes"][f["video"]]
+        for i in f["instances"]:
+            i.pop("hidden", None)
+            vis = [j for j, p in enumerate(i["pts"]) if p[0] == p[0]]
+            if not vis:
+                continue  # an empty instance stays empty: the number of samples must not change
+            i["pts"] = [[min(max(p[0] + 4.0, 1.0), W - 2.0), min(max(p[1] - 3.0, 1.0), H - 2.0)] if p[0] == p[0] else [min(7.0 + j, W - 2.0), 9.0] for j, p in enumerate(i["pts"])]
+            if len(vis) > 1:
+                i["pts"][vis[0]] = [float("nan"), float("nan")]
+    return sc
+
+
 class DS:
     def __init__(self, spec, scene, root, idx):
         self.spec = spec
@@ -181,6 +204,9 @@ class DS:
         self.path = os.path.join(root, f"ds{idx}") if self.npz else None
         self.labels = dw.build_labels(scene)
         self.snap = dw.snapshot_labels(self.labels)
+        if self.npz and spec.get("stale_dir"):
+            # an earlier (interrupted) run left chunk files of OTHER labels in the same directory: they must not be served
+            dw.build_dataset(self.kind, dw.build_labels(stale_scene(scene)), self.cfg, np_chunks=True, np_chunks_path=self.path)
         self.ds = dw.build_dataset(self.kind, self.labels, self.cfg, np_chunks=self.npz, np_chunks_path=self.path)
         self.first = {}
         self.fresh = None
@@ -279,7 +305,7 @@ def execute(plan, choices=None):
     trace = []
     probes = {"reread_after_other_reads": 0, "missing_anchor_instance": 0, "npz_dataset": 0, "reopen_existing_chunks": 0,
               "epoch_through_dataloader": 0, "call_on_nan_data": 0, "empty_instance_in_labels": 0, "predicted_instance_in_labels": 0,
-              "fresh_reference_compared": 0}
+              "fresh_reference_compared": 0, "hidden_node_with_stored_xy": 0, "stale_chunks_in_dir": 0}
     op_kinds = []
 
     def V(kind, where, detail):
@@ -298,6 +324,8 @@ def execute(plan, choices=None):
             DSs.append(D)
             if spec["npz"]:
                 probes["npz_dataset"] += 1
+            if spec["npz"] and spec.get("stale_dir"):
+                probes["stale_chunks_in_dir"] += 1
             ch = dw.labels_changed(D.snap)
             if ch:
                 V("labels_mutated", f"build:{spec['kind']}", f"building the {spec['kind']} dataset changed the labels: {ch}")
@@ -312,6 +340,8 @@ def execute(plan, choices=None):
                     probes["empty_instance_in_labels"] = 1
                 if x["pred"]:
                     probes["predicted_instance_in_labels"] = 1
+                if x.get("hidden"):
+                    probes["hidden_node_with_stored_xy"] = 1
         cal_labels = dw.build_labels(scene)
         cal_snap = dw.snapshot_labels(cal_labels)
 
